@@ -122,15 +122,33 @@ func attributionClass(a, b string) string {
 			return ""
 		}
 	}
+	// the recorded finding is about ONE kind of message: the error of a local action / reusable
+	// workflow that cannot be read or parsed, which the shared cache hands to its first caller only
+	oncePerRun := func(msg string) bool {
+		for _, p := range []string{"could not parse action metadata in ", "could not read reusable workflow file for ", "error while parsing reusable workflow "} {
+			if strings.HasPrefix(msg, p) {
+				return true
+			}
+		}
+		return false
+	}
 	kinds := map[string]bool{}
 	for l, n := range la {
 		if lb[l] != n {
-			kinds[reLoc.FindStringSubmatch(l)[5]] = true
+			m := reLoc.FindStringSubmatch(l)
+			if !oncePerRun(m[4]) {
+				return ""
+			}
+			kinds[m[5]] = true
 		}
 	}
 	for l, n := range lb {
 		if la[l] != n {
-			kinds[reLoc.FindStringSubmatch(l)[5]] = true
+			m := reLoc.FindStringSubmatch(l)
+			if !oncePerRun(m[4]) {
+				return ""
+			}
+			kinds[m[5]] = true
 		}
 	}
 	ks := []string{}
@@ -457,7 +475,7 @@ func main() {
 		var with []string
 		supplied := []string{}
 		for _, i := range r.Perm(len(ids)) {
-			if r.Chance(1, 3) {
+			if k%6 != 0 && r.Chance(1, 3) { // (every 6th case: no `with:` section at all)
 				with = append(with, fmt.Sprintf("          %s: x\n", meta.Inputs[ids[i]].Name))
 				supplied = append(supplied, ids[i])
 			}
@@ -499,13 +517,13 @@ func main() {
 		var with, secs []string
 		supIn, supSec := []string{}, []string{}
 		for i, n := range c.inputs {
-			if r.Chance(1, 4) {
+			if k%5 != 0 && r.Chance(1, 4) { // (every 5th case: neither `with:` nor `secrets:`)
 				with = append(with, fmt.Sprintf("      %s: x\n", n))
 				supIn = append(supIn, strings.ToLower(c.inputs[i]))
 			}
 		}
 		for i, n := range c.secrets {
-			if r.Chance(1, 4) {
+			if k%5 != 0 && r.Chance(1, 4) {
 				secs = append(secs, fmt.Sprintf("      %s: x\n", n))
 				supSec = append(supSec, strings.ToLower(c.secrets[i]))
 			}
@@ -634,6 +652,38 @@ func main() {
 			res := lintFiles(files, rep)
 			res.Errs = strings.ReplaceAll(res.Errs, base, "<base>")
 			res.Out = strings.ReplaceAll(res.Out, base, "<base>")
+			return res
+		})
+	}
+	// (9') one repository: files with a malformed call `<callee>@ref` of a local workflow next to files
+	// that call the same workflow properly but forget its required input
+	{
+		pp := filepath.Join(*out, "poisonproj")
+		hx.Must(os.MkdirAll(filepath.Join(pp, ".git"), 0o755))
+		wd := filepath.Join(pp, ".github", "workflows")
+		writeFile(filepath.Join(wd, "callee.yml"), "on:\n  workflow_call:\n    inputs:\n      name:\n        type: string\n        required: true\njobs:\n  j:\n    runs-on: ubuntu-latest\n    steps:\n      - run: echo\n")
+		var files []string
+		for k := 0; k < 5; k++ {
+			a := filepath.Join(wd, fmt.Sprintf("a%d.yml", k))
+			// (the malformed call comes last in a large file: in a parallel run the small files are checked
+			// before it is reached, in a sequential run after it)
+			var big strings.Builder
+			big.WriteString("on: push\njobs:\n")
+			for q := 0; q < 150*(k%2); q++ {
+				fmt.Fprintf(&big, "  j%d:\n    runs-on: ubuntu-latest\n    steps:\n      - run: echo ${{ github.sha }}\n", q)
+			}
+			big.WriteString("  zc:\n    uses: ./.github/workflows/callee.yml@main\n")
+			writeFile(a, big.String())
+			b := filepath.Join(wd, fmt.Sprintf("b%d.yml", k))
+			writeFile(b, "on: push\njobs:\n  c:\n    uses: ./.github/workflows/callee.yml\n")
+			files = append(files, a, b)
+		}
+		nontrivial++
+		sum.Dist["malformed_and_proper_call_runs"]++
+		check("multi:malformed-and-proper-calls", "10 files: malformed `callee.yml@main` calls next to proper calls of the same local workflow", "", func(rep int) result {
+			res := lintFiles(files, rep)
+			res.Errs = strings.ReplaceAll(res.Errs, pp, "<proj>")
+			res.Out = strings.ReplaceAll(res.Out, pp, "<proj>")
 			return res
 		})
 	}
